@@ -1146,6 +1146,12 @@ func UtxoValidateScriptDataHash(
 
 	// Determine which Plutus versions are used
 	usedVersions := make(map[uint]struct{})
+	// Only the scripts the transaction requires contribute their language, not
+	// every reference script that sits on a referenced or spent UTxO
+	needed, _, err := common.RequiredScriptHashes(tx, ls)
+	if err != nil {
+		return err
+	}
 	if len(wits.WsPlutusV1Scripts.Items()) > 0 {
 		usedVersions[0] = struct{}{}
 	}
@@ -1175,6 +1181,10 @@ func UtxoValidateScriptDataHash(
 		if script == nil {
 			continue
 		}
+		if _, ok := needed[script.Hash()]; !ok {
+			// Not required by this transaction
+			continue
+		}
 		if version, ok := common.PlutusScriptVersion(script); ok {
 			usedVersions[version] = struct{}{}
 		}
@@ -1192,6 +1202,10 @@ func UtxoValidateScriptDataHash(
 		}
 		script := utxo.Output.ScriptRef()
 		if script == nil {
+			continue
+		}
+		if _, ok := needed[script.Hash()]; !ok {
+			// Not required by this transaction
 			continue
 		}
 		if version, ok := common.PlutusScriptVersion(script); ok {
